@@ -32,10 +32,24 @@ struct logged_event : event {
 // the memory-order constants of the weak-memory models are generated (DESIGN 4.5).
 struct motable {
     std::set<std::string> rows;
+    // harness-registered labels of atomic objects (address ranges): sites are then identified by the object
+    // they operate on rather than by the name of the enclosing function
+    struct range { std::uintptr_t lo, hi; std::string name; };
+    std::vector<range> labels;
     static motable &get() { static motable m; return m; }
+    void label(const void *addr, std::size_t size, const std::string &name) {
+        internal_allocs++;
+        auto lo = reinterpret_cast<std::uintptr_t>(addr);
+        for (auto &r : labels) if (r.lo == lo) { r.hi = lo + size; r.name = name; internal_allocs--; return; }
+        labels.push_back(range{lo, lo + size, name});
+        internal_allocs--;
+    }
     void record(const event &e) {
         if (e.op == op_t::mark || e.op == op_t::na_read || e.op == op_t::na_write) return;
-        std::string r = std::string(op_name(e.op)) + "\t" + e.func + "\t" + mo_name(e.mo) + "\t" + mo_name(e.mo_fail);
+        std::string lbl = "-";
+        auto a = reinterpret_cast<std::uintptr_t>(e.obj);
+        for (auto &r : labels) if (a >= r.lo && a < r.hi) lbl = r.name;
+        std::string r = std::string(op_name(e.op)) + "\t" + lbl + "\t" + e.func + "\t" + mo_name(e.mo) + "\t" + mo_name(e.mo_fail);
         rows.insert(std::move(r));
     }
     ~motable() {
@@ -81,7 +95,7 @@ public:
     static thread_ctl *&self() { static thread_local thread_ctl *s = nullptr; return s; }
 
     void install() { _log.reserve(8192); current() = this; g_handler.store(this, std::memory_order_release); }
-    void uninstall() { g_handler.store(nullptr, std::memory_order_release); current() = nullptr; }
+    void uninstall() { g_handler.store(nullptr, std::memory_order_release); current() = nullptr; motable::get().labels.clear(); }
 
     // ---- controller side -------------------------------------------------------------------
     // create a managed thread and run it up to its first visible operation
